@@ -284,7 +284,7 @@ def replay(mod, prop, path):
         for c in r["clauses"]:
             if c["name"] == rp["name"]:
                 print("REPLAY property=%s obligation=%s verdict on the current tree: %s" % (prop, c["name"], c["verdict"]))
-                if c["verdict"] in ("refuted", "refuted-finite"):
+                if c["verdict"] in ("refuted", "refuted-finite") or (c["verdict"] == "undecided" and rp.get("verdict") == "not-discharged-after-source-change"):
                     print("VIOLATION property=%s replay=%s no-failing-input-found" % (prop, path))
                     return 1
                 return 0
@@ -329,6 +329,8 @@ def run_property(mod, prop, tier, seed, build, t0, skip_d=False, skip_b=False, o
             if f.get("status") == "generated" and not f.get("requires_satisfiable", True):
                 machinery.append("vacuous contract: requires of %s unsatisfiable" % f["function"])
     exp_names = set(expected["discharged"]) if expected else None
+    exp_hashes = (expected or {}).get("function_hashes", {})
+    cur_hashes = {f["function"]: f.get("source_hash") for r in d_results for f in r.get("functions", []) if f.get("source_hash")}
     canary_pending = canary_issues
     seen = set()
     for c in clauses:
@@ -336,6 +338,12 @@ def run_property(mod, prop, tier, seed, build, t0, skip_d=False, skip_b=False, o
         if c["verdict"] == "discharged":
             continue
         was_expected = exp_names is None or c["name"] in exp_names
+        if c["verdict"] == "undecided" and was_expected and exp_names is not None and c["fn"] in exp_hashes and cur_hashes.get(c["fn"]) not in (None, exp_hashes[c["fn"]]):
+            # the proof of this clause went through on the reference tree and no back end can rebuild it for the CHANGED source of the function:
+            # the code no longer verifies against its contract (reported without a counterexample)
+            c = dict(c, verdict="not-discharged-after-source-change")
+            failed_clauses.append(c)
+            continue
         if c["verdict"] in ("refuted", "refuted-finite") and was_expected:
             if c["verdict"] == "refuted-finite" and expected and c["name"] in expected.get("finite_unusable", []):
                 undecided.append("obligation=%s (finite-instance model not trusted for this clause)" % c["name"])
